@@ -186,11 +186,13 @@ struct Runner
         bool ab = mon::aborts([&] { fresh = s.register_callback(cbpool::pool<S, 4>()[0]); });
         if (st[o] != CR) {
           if (!ab) { fail("register", "registration-outside-lifetime-window-did-not-abort", ""); new CB(std::move(fresh)); return false; }
-          n_abort_ok++; ended = true; return false;
+          // a refused registration is an abort the client may catch and carry on from: it changed nothing, so the history
+          // goes on with the model as it was (what it must not do is leave something behind that a later window sees)
+          n_abort_ok++; mon::hit("history-continued-after-a-refused-registration"); break;
         }
         if (registered[o]) {
           if (!ab) { fail("register", "second-registration-did-not-abort", ""); return false; }
-          n_abort_ok++; ended = true; return false;
+          n_abort_ok++; mon::hit("history-continued-after-a-refused-registration"); break;
         }
         if (ab) { fail("register", "registration-aborted-in-fresh-incarnation", "the function is not registered in this incarnation"); return false; }
         *owner[o] = std::move(fresh);
